@@ -35,7 +35,10 @@ def rand_value(rng, leaf, pattern, idx):
     if kind in ("S", "f"):
         if pattern == "ones":
             return bytes([255] * w)
-        return bytes(rng.randrange(256) for _ in range(w))
+        b = bytes(rng.randrange(256) for _ in range(w))
+        if kind == "S" and b.endswith(b"\x00"):      # numpy's S dtype strips trailing NULs on read: not a layout question
+            b = b[:-1] + bytes([1 + rng.randrange(255)])
+        return b
     bits = 8 * w
     if pattern == "random":
         u = rng.getrandbits(bits)
@@ -150,10 +153,10 @@ def run(res, tier, seed):
         fam, lay = info["family"], info["scan"]
         lac = info["res"] == "lac"
         n = rng.choice([1, 2, 3, 5] if lac else [1, 2, 3, 7, 12])
-        if "first" in var:
-            n = 6
         if tier == "thorough":
             n = rng.choice([2, 6] if lac else [3, 17, 40])
+        if "first" in var:
+            n = 6       # keeps first + n below the format's highest admissible line number (C11 drops the others)
         size = l1b.SPEC[lay]["size"]
         recs, written = [], []
         for i in range(n):
